@@ -401,6 +401,7 @@ def check_ts_sync(rep, repo, tier):
              'starts with the sync octet; the units are disjoint, in-order pieces of the input (by token identity); and the sequence of units is the same '
              'for every cutting as for the uncut stream; a stream made of whole packets only (after optional leading junk) comes out entirely once flushed')
     check_size_domain(rep, u)
+    check_size_stored(rep, u, 'upipe_ts_sync')
     P = 4
     fin = u.funcs['upipe_ts_sync_input']
     ffl = u.funcs['upipe_ts_sync_flush']
@@ -482,6 +483,29 @@ PIPE_S = ('obj', 'pipe')
 
 
 U_CHECK = 'lib/upipe-ts/upipe_ts_check.c'
+
+
+def check_size_stored(rep, u, rec):
+    """the size a caller configures is the size in force once the call reports success"""
+    rep.rule('R-size-stored', 'the generated X_set_output_size of the regrouping pipes (aggregate; ts_sync, ts_check when the stub headers are there): every return of '
+             'UBASE_ERR_NONE is preceded on every path by the store of the parameter into the output_size field - a call made before the flow definition is '
+             'known (or on any other branch) may not report success and leave the previous size in force, the units would not respect the configured size')
+    fn = u.funcs.get(rec + '_set_output_size')
+    if fn is None or not fn.blocks:
+        raise facts.AnalysisBroken('anchor vanished: %s_set_output_size' % rec)
+    ev = pr.Events(fn)
+
+    def store(n):
+        if not pr.m_store('output_size')(n) or n.get('op') != '=':
+            return False
+        r = strip_all_casts(fn.resolve(n['rhs']))
+        return isinstance(r, dict) and r.get('k') == 'ref' and r.get('d') == 'param'
+    if not ev.find(store):
+        raise facts.AnalysisBroken('anchor vanished: %s_set_output_size no longer stores its parameter into output_size' % rec)
+    late = pr.must_precede(ev, store, pr.m_return('UBASE_ERR_NONE'))
+    rep.add('R-size-stored', rec + '_set_output_size', VIOLATED if late else HOLDS, fn.loc,
+            **({'what': '%s_set_output_size can return UBASE_ERR_NONE (line %s) on a path that never stores the size given: the pipe keeps cutting to the previous '
+                        'size although the configuration call succeeded' % (rec, late[0][2].get('l'))} if late else {}))
 
 
 def check_size_domain(rep, u):
@@ -630,6 +654,7 @@ def run(tier='quick', repo=None):
     rep.rule('R-progress', 'chunk_stream input/flush: on every abstract run the loop ends; each extract_uref_stream(n) has 1 <= n <= size and n <= octets pending')
     rep.rule('R-unit-size', 'aggregate: every unit handed to upipe_agg_output holds between 1 and output_size octets; what stays aggregated fits output_size and equals upipe_agg->size; octets are conserved')
     rep.rule('R-config', 'the only stores to chunk_stream size/align/mtu are in _upipe_chunk_stream_set_mtu (under its validity test) and the allocation defaults')
+    check_size_stored(rep, prog.units['lib/upipe-modules/upipe_aggregate.c'], 'upipe_agg')
     cs = prog.units['lib/upipe-modules/upipe_chunk_stream.c']
     for n in ('upipe_chunk_stream_input', 'upipe_chunk_stream_flush', '_upipe_chunk_stream_set_mtu'):
         if n not in cs.funcs:
